@@ -12,13 +12,20 @@ tvars == <<vars, l, bad>>
 AbsV(j) == [ver |-> j.ver, owner |-> j.owner, phase |-> j.phase, fins |-> ToSet(j.fins)]
 AbsRes(j) == [k \in KeySet |-> AbsV(j[k])]
 TInit == Init /\ l = 1 /\ bad = FALSE
+Twin(c) == c \in {"tstart", "tmodify", "tcleanup"}
 Ctrl(e) ==
-  CASE e.c = "start"   -> Start
-    [] e.c = "cleanup" -> Cleanup(e.ks)
-    [] e.c = "restart" -> Restart
-    [] OTHER           -> Write(e.c, e.k)
+  CASE e.c = "tstart"   -> TStart
+    [] e.c = "tmodify"  -> TModify
+    [] e.c = "tcleanup" -> TCleanup
+    [] e.c = "start"   -> Start /\ UNCHANGED tw
+    [] e.c = "cleanup" -> Cleanup(e.ks) /\ UNCHANGED tw
+    [] e.c = "restart" -> Restart /\ UNCHANGED tw
+    [] OTHER           -> Write(e.c, e.k) /\ UNCHANGED tw
+TwOf(e) == IF "tw" \in DOMAIN e THEN e.tw ELSE tw'.ex
 What(e) ==
-  IF last'.cls # e.cls
+  IF TwOf(e) # tw'.ex THEN (IF Twin(e.c) THEN "twin-cleanup-wrong" ELSE "other-controllers-output-changed")
+  ELSE IF Twin(e.c) THEN "twin-changed-this-controllers-output"
+  ELSE IF last'.cls # e.cls
   THEN (IF e.c = "cleanup" THEN "cleanup-outcome" ELSE IF e.c = "start" THEN "start-outcome" ELSE "outcome-class")
   ELSE IF \E k \in KeySet : res[k].ver # 0 /\ res[k].owner # Self /\ AbsRes(e.res)[k] # res[k] THEN "foreign-resource-changed"
   ELSE IF e.c = "cleanup" /\ \E k \in KeySet : res'[k].ver = 0 /\ AbsRes(e.res)[k].ver # 0 THEN "cleanup-left-untouched-output"
@@ -27,12 +34,13 @@ What(e) ==
 Step(e) ==
   IF e.ev = "reset" THEN /\ res' = [k \in KeySet |-> Absent] /\ tracking' = FALSE /\ touched' = {}
                               /\ last' = [cmd |-> "init", cls |-> "ok"] /\ bad' = FALSE
+                              /\ tw' = [tracking |-> FALSE, touched |-> FALSE, ex |-> FALSE]
   ELSE IF bad THEN UNCHANGED <<vars, bad>>
   ELSE IF e.c = "nop" THEN UNCHANGED <<vars, bad>>
   ELSE IF e.c \in {"xcreate", "xaddfin", "xremfin", "xdestroy"}
-       THEN res' = AbsRes(e.res) /\ last' = [cmd |-> e.c, cls |-> e.cls] /\ UNCHANGED <<tracking, touched, bad>>
+       THEN res' = AbsRes(e.res) /\ last' = [cmd |-> e.c, cls |-> e.cls] /\ UNCHANGED <<tracking, touched, bad, tw>>
   ELSE /\ Ctrl(e)
-       /\ IF last'.cls = e.cls /\ res' = AbsRes(e.res) THEN bad' = FALSE
+       /\ IF (Twin(e.c) \/ last'.cls = e.cls) /\ res' = AbsRes(e.res) /\ TwOf(e) = tw'.ex THEN bad' = FALSE
           ELSE /\ PrintT(<<"MISMATCH", e.tid, l, What(e)>>)
                /\ PrintT(<<"DETAIL", ToString([cls |-> last'.cls, res |-> res', tracking |-> tracking, touched |-> touched]),
                                       ToString([cls |-> e.cls, res |-> AbsRes(e.res)])>>)
